@@ -84,7 +84,6 @@ func (e *Exec) specWrites(fn *ssa.Function, spec *FuncSpec, ws map[string]bool) 
 	if spec.Pure {
 		if spec.Allocs {
 			ws[wsAlloc] = true
-			ws[wsFreshAll] = true
 		}
 		return
 	}
@@ -98,7 +97,6 @@ func (e *Exec) specWrites(fn *ssa.Function, spec *FuncSpec, ws map[string]bool) 
 	}
 	if spec.HasMod {
 		ws[wsAlloc] = true
-		ws[wsFreshAll] = true
 		for _, h := range e.modHeapsSyntactic(fn, spec) {
 			ws[h] = true
 		}
@@ -344,7 +342,10 @@ func pkgPathOf(t types.Type) string {
 func (e *Exec) loopWriteSet(fr *frame, h *ssa.BasicBlock) (map[string]bool, map[*ssa.Alloc]bool) {
 	ws := map[string]bool{}
 	cells := map[*ssa.Alloc]bool{}
-	for b := range fr.loops.body[h] {
+	for _, b := range fr.fn.Blocks {
+		if !fr.loops.body[h][b] {
+			continue
+		}
 		for _, in := range b.Instrs {
 			e.instrWrites(fr.fn, in, ws)
 			if s, ok := in.(*ssa.Store); ok {
@@ -398,7 +399,8 @@ func (e *Exec) loopWritesMap(fr *frame, b *ssa.BasicBlock, mt *types.Map) bool {
 // havocLoop produces the state at an arbitrary iteration of the loop headed
 // by h: everything the body may write is replaced by fresh values.
 func (e *Exec) havocLoop(fr *frame, pre *State, h *ssa.BasicBlock, ord int) *State {
-	st := pre.clone()
+	st := e.fork(pre)
+	e.ctx.tag = st.id
 	if st.dead {
 		return st
 	}
@@ -450,7 +452,7 @@ func (e *Exec) havocLoop(fr *frame, pre *State, h *ssa.BasicBlock, ord int) *Sta
 		}
 		e.freshAllHavoc(st, pre, explicit)
 	}
-	for a := range cells {
+	for _, a := range sortedAllocs(cells) {
 		if v, ok := st.cells[a]; ok {
 			t := a.Type().Underlying().(*types.Pointer).Elem()
 			if v.Clo != nil {
@@ -459,7 +461,8 @@ func (e *Exec) havocLoop(fr *frame, pre *State, h *ssa.BasicBlock, ord int) *Sta
 			st.cells[a] = e.havocVal(st, t, a.Comment)
 		}
 	}
-	for k, v := range st.ghost {
+	for _, k := range sortedKeys(st.ghost) {
+		v := st.ghost[k]
 		if strings.HasPrefix(k, "range$") {
 			// only ranges started inside or at this loop are modified; ranges of
 			// enclosing loops keep their values unless this loop contains their Next
@@ -1119,7 +1122,7 @@ func (e *Exec) loopStoreTargets(fr *frame, pre *State, h *ssa.BasicBlock, cells 
 	addStruct = func(t types.Type, v ssa.Value) {
 		ws := map[string]bool{}
 		e.structHeaps(t, ws)
-		for hname := range ws {
+		for _, hname := range sortedKeys(ws) {
 			// embedded structs live at emb(ref, i): only handle flat structs
 			add(hname, v, false)
 		}
@@ -1134,7 +1137,10 @@ func (e *Exec) loopStoreTargets(fr *frame, pre *State, h *ssa.BasicBlock, cells 
 			}
 		}
 	}
-	for b := range body {
+	for _, b := range fr.fn.Blocks {
+		if !body[b] {
+			continue
+		}
 		for _, in := range b.Instrs {
 			switch x := in.(type) {
 			case *ssa.Store:
@@ -1205,4 +1211,21 @@ func (e *Exec) loopStoreTargets(fr *frame, pre *State, h *ssa.BasicBlock, cells 
 		}
 	}
 	return targets, unknown
+}
+
+func sortedAllocs(m map[*ssa.Alloc]bool) []*ssa.Alloc {
+	out := make([]*ssa.Alloc, 0, len(m))
+	for a := range m {
+		out = append(out, a)
+	}
+	sort.Slice(out, func(i, j int) bool {
+		if out[i].Pos() != out[j].Pos() {
+			return out[i].Pos() < out[j].Pos()
+		}
+		if out[i].Comment != out[j].Comment {
+			return out[i].Comment < out[j].Comment
+		}
+		return out[i].Name() < out[j].Name()
+	})
+	return out
 }
